@@ -144,7 +144,7 @@ static void* t0_main(void* a) {
 
 // state visible to the fatal / crash handlers
 static std::string g_cur_header; static std::string g_cur_out; static bool g_replay_mode; static std::string g_unit_tag; static volatile bool g_in_run;
-static std::string g_replay_dir = "replays";
+static std::string g_replay_dir = "replays"; static unsigned long long g_cur_index;
 
 static void write_text(const std::string& path, const std::string& a, const std::string& b, const std::string& c) {
     FILE* f = fopen(path.c_str(), "w"); if (!f) return; fwrite(a.data(), 1, a.size(), f); fwrite(b.data(), 1, b.size(), f); fwrite(c.data(), 1, c.size(), f); fclose(f);
@@ -157,7 +157,7 @@ static void write_text(const std::string& path, const std::string& a, const std:
     if (g_replay_mode) { printf("RESULT class=%s hash=%llx steps=%llu detail=%s\n", cls, (unsigned long long)st.trace_hash, (unsigned long long)st.steps, detail); fflush(stdout); _exit(1); }
     std::string decs = render_decs(dsim::decisions());
     write_text(g_cur_out, g_cur_header, "decisions\n" + decs, tail);
-    printf("F %s %s %s\n", g_unit_tag.c_str(), cls, g_cur_out.c_str()); fflush(stdout);
+    printf("F %s %s %s %llu\n", g_unit_tag.c_str(), cls, g_cur_out.c_str(), g_cur_index); fflush(stdout);
     _exit(3);
 }
 static void crash_handler(int sig) {
@@ -239,7 +239,7 @@ static int worker_main() {
         uint64_t f[8] = {0}; uint64_t strat[4] = {0}; std::map<std::string, long> probes; std::string sample, viol_json; std::vector<uint64_t> sigs;
         for (uint64_t i = 0; i < count; i++) {
             uint64_t rs = run_seed(vseed, prop, sname, first + i);
-            Replay rp = make_replay(sj, prop, tier, rs); prepare_fatal(sj, rp, tag);
+            Replay rp = make_replay(sj, prop, tier, rs); prepare_fatal(sj, rp, tag); g_cur_index = first + i;
             RunResult r; run_one(sj, rp, nullptr, false, false, r);
             ++runs; steps += r.st.steps; sw += r.st.switches; pre += r.st.preemptions; simns += r.st.sim_ns; ops += (uint64_t)r.ops_done;
             f[0] += r.st.f1; f[1] += r.st.f2_buffered; f[2] += r.st.f3_stall; f[3] += r.st.f6; f[4] += r.st.f7; f[5] += r.st.f8; f[6] += r.st.f2_stale; f[7] += r.st.signals;
